@@ -254,6 +254,14 @@ def _lit(e1, sort):
         return _lit(m.group(1), sort)
     if txt in ("0.5",):
         return "((1 : %s) / ((2 : Nat) : %s))" % (ty, ty)
+    m = re.fullmatch(r"(\d+)(?:\.(\d*))?(?:[eE]([+-]?\d+))?", txt)
+    if m:
+        ip, fp, ex = m.group(1), m.group(2) or "", int(m.group(3) or 0)
+        num = int(ip + fp)
+        ex -= len(fp)
+        if ex >= 0:
+            return "((%d : Nat) : %s)" % (num * 10 ** ex, ty)
+        return "(((%d : Nat) : %s) / ((%d : Nat) : %s))" % (num, ty, 10 ** (-ex), ty)
     raise ParseError("unsupported real literal %r" % txt)
 
 
